@@ -598,7 +598,18 @@ fn run_bridge(cases: &[Value], out: &mut NdjsonOut, shard: (usize, usize), hash_
                     pl.extend(rng.bytes(n));
                     let p = RtpPacket::new(h, pl);
                     sent.push(Some(p.clone()));
+                    // a failing relay push: the target connection has no remote address for this packet
+                    let up = s["up"].as_bool().unwrap_or(true);
+                    let saved = (*ta.t.ice_conn().remote_addr.read(), *tv.t.ice_conn().remote_addr.read());
+                    if !up {
+                        *ta.t.ice_conn().remote_addr.write() = "0.0.0.0:0".parse().unwrap();
+                        *tv.t.ice_conn().remote_addr.write() = "0.0.0.0:0".parse().unwrap();
+                    }
                     src.receive(Bytes::from(p.marshal().unwrap()), "127.0.0.1:5000".parse().unwrap(), &mut buf).await;
+                    if !up {
+                        *ta.t.ice_conn().remote_addr.write() = saved.0;
+                        *tv.t.ice_conn().remote_addr.write() = saved.1;
+                    }
                 }
                 (sent, drain_target(&ta).await, drain_target(&tv).await)
             })
@@ -612,7 +623,8 @@ fn run_bridge(cases: &[Value], out: &mut NdjsonOut, shard: (usize, usize), hash_
             }
             Ok(x) => x,
         };
-        let nfwd = st.iter().filter(|s| is_fwd(s)).count();
+        let is_up = |s: &Value| s["up"].as_bool().unwrap_or(true);
+        let nfwd = st.iter().filter(|s| is_fwd(s) && is_up(s)).count();
         if got_a.len() + got_v.len() != nfwd {
             // a packet the bridge took was not forwarded (or forwarded twice): the output is not the
             // arrival-ordered consecutive stream
@@ -650,6 +662,15 @@ fn run_bridge(cases: &[Value], out: &mut NdjsonOut, shard: (usize, usize), hash_
                 continue;
             }
             let e = &s["exp"];
+            if !is_up(s) {
+                if by_step.contains_key(&(k as u8)) {
+                    case_drift = true;
+                    out.push(&json!({"type": "divergence", "case_idx": idx, "rule": "EXT", "field": "lost-push", "step": k,
+                                     "observed": "a packet whose relay push failed arrived all the same", "case": c}));
+                }
+                // its per-source constants are still learnt by the code, but there is nothing to learn them from
+                continue;
+            }
             let Some((went_v, gr)) = by_step.get(&(k as u8)) else {
                 divs += 1;
                 out.push(&json!({"type": "divergence", "case_idx": idx, "rule": "SeqConsecutive", "field": "missing", "step": k,
@@ -692,7 +713,7 @@ fn run_bridge(cases: &[Value], out: &mut NdjsonOut, shard: (usize, usize), hash_
                 break;
             }
             if g.header.sequence_number != eseq {
-                let rule = if first { "EXT" } else { "SeqConsecutive" };
+                let rule = if first { "EXT" } else { e["seqRule"].as_str().unwrap_or("SeqConsecutive") };
                 if rule == "EXT" { case_drift = true; } else { divs += 1; }
                 bad(rule, "seq", json!(eseq), json!(g.header.sequence_number));
                 break;
